@@ -280,9 +280,11 @@ Proof.
     + intros g Hg. apply in_app_iff. left. apply in_flat_map. exists x. split; [exact Hx|].
       unfold struct_fields. rewrite D. exact Hg.
     + intros g Hg. apply in_app_iff. right.
-      apply (IH (flat_map children curr) seen'); [rewrite ids_of_children; exact NDn|exact Dj'|exact Hh'| |exact R'|exact Hg].
-      apply in_flat_map. exists x. split; [exact Hx|]. unfold children, struct_fields. rewrite D.
-      apply in_map. apply filter_In. split; assumption.
+      assert (In (ftype f) (flat_map children curr)) as Hc.
+      { apply in_flat_map. exists x. split; [exact Hx|]. unfold children, struct_fields. rewrite D.
+        apply in_map. apply filter_In. split; assumption. }
+      refine (IH (flat_map children curr) seen' _ Dj' Hh' (ftype f) fs Hc R' g Hg).
+      rewrite ids_of_children. exact NDn.
 Qed.
 
 (* every member by Go's rule is offered, when the embedded struct types are pairwise distinct *)
